@@ -9,6 +9,28 @@ CLAIMED = {
              "seeded random items and compared with the implementation (spec verdict is the oracle).",
         note="Blake2b-256 collision freedom; bound N=70 (quick) / 300 (thorough) list lengths; random item contents.",
         design_ref="§5 C35", engine="ledger-decision"),
+    "C42": dict(
+        technique="TLA+ spec of the pipeline goroutines (Pipeline.tla), TLC safety+liveness, TLC-simulated schedules forced on the real pipeline through blocking gates",
+        text="Pipeline.tla models Submit, stage workers, the apply runner, Stop and WaitForDrain at the grain of the verif gates; "
+             "TLC checks order/exactly-once/no-send-on-closed/termination exhaustively for small constants; TLC-simulated behaviours are "
+             "forced step by step on the real pipeline (each goroutine released gate by gate) and every step's observable outcome is compared "
+             "with the specification, plus monitors on the real run (applied order, exactly once, results, Stop returns, no goroutine left).",
+        note="small TLC constants; gates sequentialise the goroutines (true parallel races are outside the forced replays); application drains Results/Errors; validated-and-applied path only model-checked.",
+        design_ref="§5 C42, Appendix B", engine="pipeline"),
+    "C43": dict(
+        technique="TLA+ spec of the pipeline (Pipeline.tla) with WaitForDrain/PendingCount as separate reads, TLC invariant DrainSound + liveness, gate-forced replay of TLC schedules with a drain monitor on the real run",
+        text="DrainSound (WaitForDrain returned nil => every block submitted before the wait is finished) is model-checked over all interleavings "
+             "of small configurations, including blocks held inside decode/validate/apply; the same schedules are forced on the real pipeline and "
+             "a monitor checks the real run at the moment WaitForDrain returns.",
+        note="as C42; the monitor observes 'finished' for good blocks through ApplyFunc returning.",
+        design_ref="§5 C43, Appendix B", engine="pipeline"),
+    "C44": dict(
+        technique="TLA+ spec of the pipeline (Pipeline.tla) with expiring submit contexts, TLC invariants DenseSeq/QuiescentComplete + liveness OkEventuallyApplied, gate-forced replay with forced context expiry under backpressure",
+        text="Submissions whose context expires while the channel is full (forced through the gates) are interleaved with successful ones; "
+             "TLC proves on the model that successful submissions get dense sequence numbers and are eventually applied; the real run must reach "
+             "the specification's quiescent state with every successfully submitted good block applied.",
+        note="as C42.",
+        design_ref="§5 C44, Appendix B", engine="pipeline"),
 }
 
 NOT_APPLICABLE = {
